@@ -8,3 +8,5 @@ EXPLANATION = 'Per line-number instruction: LineRow::execute stores exactly the 
 def run(rep, ctx):
     run_specs(rep, ctx, 'C04')
     run_D4(rep, ctx.g)
+    from ..guards import run_D10
+    run_D10(rep, ctx.g)
